@@ -157,6 +157,15 @@ def score_work(job):
                 for name, val, manual in forms:
                     if isinstance(val, str) and 'e' not in jsdiff.py_eval(athlib.tyrving_score, [g2, job['age'], ev2, val]):
                         args.append([g2, job['age'], ev2, val])
+        if k % 13 == 0:
+            # marks finer than the 0.01 grid (a photo-finish reading, a tape read to the millimetre), as text and as float
+            for mil in (1, 5, 9):
+                for val in ('%d.%02d%d' % (cs // 100, cs % 100, mil), (cs * 10 + mil) / 1000.0):
+                    if job['sys'] == 'ty':
+                        if 'e' not in jsdiff.py_eval(athlib.tyrving_score, [job['g'], job['age'], job['ev'], val]):
+                            args.append([job['g'], job['age'], job['ev'], val])
+                    else:
+                        args.append([job['ct'], job['ev'], val])
         k += 1
         cs += 1 if (stride == 1 or cs < dense_lo) else stride
     if job['sys'] == 'qk':
@@ -172,6 +181,9 @@ def score_work(job):
                 return 'age-form'
             if isinstance(a_[3], str) and a_[3] != a_[3].strip():
                 return 'mark-with-blanks'
+            if (isinstance(a_[3], str) and len(a_[3].rsplit('.', 1)[-1]) == 3 and a_[3].count('.') == 1 and ':' not in a_[3]) or (
+                    isinstance(a_[3], float) and abs(a_[3] * 100 - round(a_[3] * 100)) > 1e-6):
+                return 'mark-finer-than-0.01'
             dist = sc.setup()['ty']._tyrvingTables[a_[0]][a_[2]][1][0] if job.get('kind') == 'race' else None
             hand = isinstance(a_[3], str) and U().is_hand_timing(a_[3])
             return 'hand-timed-%s' % ('40-60-80-300' if dist in (40, 60, 80, 300) else 'other') if hand else ''
